@@ -7,11 +7,45 @@ import (
 )
 
 //verif:pkg ./stream
-// VerifBatch args: items L, batchSize, source ends with error (0/1), consumer calls before Close (-1: reads to the end)
-//verif:case C11,C09 quick VerifBatch 0..1 1..2 0..1 -1 @fires=2 @noreplay=1 @arith=1
-//verif:case C11,C09 quick VerifBatch 1 1..2 0 0..1 @fires=2 @noreplay=1 @arith=1
-//verif:case C11,C09 thorough VerifBatch 2 1..2 0..1 -1 @fires=3 @noreplay=1 @arith=1
-//verif:case C11,C09 thorough VerifBatch 2 2 0 0..2 @fires=3 @noreplay=1 @arith=1
+// VerifBatch args: items L, batchSize, source ends with (0 End, 1 an error, 2 context.Canceled as its own error), consumer calls before Close (-1: reads to the end)
+//verif:case C11 quick VerifBatch 0..1 1 0..2 -1 @fires=2 @noreplay=1 @arith=1
+//verif:case C11 quick VerifBatch 1 1 0 0..1 @fires=2 @noreplay=1 @arith=1
+//verif:case C11 quick VerifBatch 0 2 0..2 -1 @fires=2 @noreplay=1 @arith=1
+//verif:case C11 thorough VerifBatch 1 2 0..2 -1 @fires=2 @noreplay=1 @arith=1
+//verif:case C11 thorough VerifBatch 1 2 0 0..1 @fires=2 @noreplay=1 @arith=1
+// VerifBatchClose args: items L (all available at once), batchSize
+//verif:case C11 quick VerifBatchClose 0..3 1..2 @fires=1 @noreplay=1
+//verif:case C11 thorough VerifBatchClose 4 1..3 @fires=2 @noreplay=1
+
+type vSliceSrc struct {
+	n, pos int
+	closes int
+}
+
+func (s *vSliceSrc) Next(ctx context.Context) (int, error) {
+	if err := ctx.Err(); err != nil {
+		return 0, err
+	}
+	if s.pos >= s.n {
+		return 0, End
+	}
+	s.pos++
+	return s.pos - 1, nil
+}
+func (s *vSliceSrc) Close() { vAtomic(func() { s.closes++ }) }
+
+// VerifBatchClose: the producer runs ahead of a consumer that never reads; Close arrives at an
+// arbitrary moment (the scheduler decides how far producer and batcher have got). Close must
+// return, with the background goroutines gone and the source closed.
+func VerifBatchClose(L int, batchSize int) {
+	src := &vSliceSrc{n: L}
+	out := Batch[int](src, time.Duration(1<<30), batchSize)
+	out.Close() // a Close that never returns is reported as a deadlock
+	vQuiesce()
+	vAssert(vBlockedCount() == 0, "C11:batch/close-stops-the-background-work")
+	vAssert(src.closes == 1, "C11:batch/source-closed-exactly-once")
+	vCover("batch-close")
+}
 
 // vArrSrc: a source whose items arrive when the scheduler lets the arrival goroutine run.
 type vArrSrc struct {
@@ -53,6 +87,10 @@ func VerifBatch(L int, batchSize int, withErr int, closeAfter int) {
 	if withErr == 1 {
 		src.errAtEnd = E
 	}
+	if withErr == 2 {
+		E = context.Canceled // the source itself fails with context.Canceled while Batch is open
+		src.errAtEnd = E
+	}
 	go func() {
 		for i := 0; i < L; i++ {
 			src.arrive <- i
@@ -91,7 +129,7 @@ func VerifBatch(L int, batchSize int, withErr int, closeAfter int) {
 			got += len(batch)
 			continue
 		}
-		if withErr == 1 {
+		if withErr != 0 {
 			vAssert(err == E, "C11:batch/reports-the-source-error")
 		} else {
 			vAssert(err == End, "C11:batch/reports-end")
@@ -105,7 +143,7 @@ func VerifBatch(L int, batchSize int, withErr int, closeAfter int) {
 	out.Close() // must return (a blocked Close is reported as a deadlock)
 	vQuiesce()
 	vAssert(vBlockedCount() <= 1, "C11:batch/close-stops-the-background-work") // the arrival goroutine may still be parked
-	vAssert(src.closes == 1, "C09:batch/source-closed-exactly-once")
-	vAssert(src.afterClose == 0, "C09:batch/no-next-after-close")
+	vAssert(src.closes == 1, "C11:batch/source-closed-exactly-once")
+	vAssert(src.afterClose == 0, "C11:batch/no-next-after-close")
 	vCover("batch")
 }
